@@ -370,6 +370,53 @@ def abort_behind_response(source: int, reason: int, release: bool, closes: bool)
     return ok
 
 
+@cond(bounds='requested association over the REAL provider: the peer aborts with symbolic (source, reason) - or asks for '
+             'release - WHILE THE USER IS IDLE between two operations (the provider thread has already queued the '
+             'indication); the user then looks a service up again (get_scu) and runs it: the operation must end with '
+             'the library error carrying the peer\'s source and reason, not with a time-out or a made-up abort',
+      timeout=240)
+def abort_while_idle(source: int, reason: int, release: bool, first_op: bool) -> bool:
+    """
+    pre: 0 <= source <= 255 and 0 <= reason <= 255
+    post: _
+    """
+    from vt import sim
+    from vt.harness import live as L
+    with sim._no_tracing():
+        L.install(sim.SimClock(1000))
+        ae = _client_ae()
+
+    def react(new):
+        out = []
+        for raw in new:
+            if raw[0] == 1:
+                out.append(_ac_for(raw))
+            elif raw[0] == 4:
+                out.append(_echo_rsp_wire(1))
+        return out
+    lr = L.LiveRequester(ae, {'aet': 'REMOTE', 'address': 'h', 'port': 104}, react)
+    lr.asce.request()
+    ok = True
+    if first_op:
+        st = lr.asce.get_scu(VERIF_SOP)(1)          # a first, successful C-ECHO
+        ok = int(st) == 0
+    # the peer ends the association while the user is doing something else; the provider thread runs
+    lr.sock.inbox.append(pdu.AReleaseRqPDU().encode() if release else bytes([7, 0, 0, 0, 0, 4, 0, 0, source, reason]))
+    lr.pump.run()
+    err = None
+    try:
+        lr.asce.get_scu(VERIF_SOP)(1)
+    except exceptions.AssociationAbortedError as e:
+        err = ('abort', e.source, e.reason_diag)
+    except exceptions.AssociationReleasedError:
+        err = ('release',)
+    except exceptions.NetDICOMError as e:
+        err = ('other', type(e).__name__)
+    ok = ok and err == (('release',) if release else ('abort', source, reason))
+    deep(ok and not release and source == 2 and reason == 5 and first_op)
+    return ok
+
+
 @cond(bounds='public API, nested requested associations (forwarding use) over real providers and scripted peers: inside an '
              'established outer association an inner one is requested and is refused with symbolic (result, source, '
              'reason) - or accepted and then aborted by its peer with symbolic (source, reason) on the first message '
